@@ -286,7 +286,7 @@ pub fn stmt(s: &Value) -> String {
         "cls" => "CLS".into(),
         "delete" => format!("DELETE{}", range_text(s)),
         "list" => format!("LIST{}", range_text(s)),
-        "renum" => format!("RENUM{}", s["args"].as_str().map(|a| format!(" {}", a)).unwrap_or_default()),
+        "renum" => { let a = s["args"].as_str().unwrap_or(""); if a.is_empty() { "RENUM".into() } else { format!("RENUM {}", a) } }
         "bad" | "raw" => {
             if s.get("cp").is_some() { cps_to_string(&s["cp"]) } else { s["txt"].as_str().unwrap_or("?").to_string() }
         }
